@@ -227,6 +227,19 @@ def c16(run, replay=None):
             else:
                 run.violation("find result differs from the entries that satisfy all criteria: missing %r, unexpected %r" % (missing, extra),
                               dict(desc, implementation=io, expected=model))
+    # `follow: true` on trees WITHOUT symbolic links changes nothing (the model covers follow: false only; this is the law
+    # that holds whatever following means)
+    def linkfree(t):
+        return t[0] != 'l' and (t[0] != 'd' or all(linkfree(k) for k in t[2]))
+    fsel = [i for i, (t, roots, p, ig) in enumerate(cases) if linkfree(t) and not ig and "ok" in (iouts[i].get("module") or {})][:(150 if run.tier == "quick" else 2000)]
+    fouts = C.run_harness("find", [dict(world=world_nodes(cases[i][0]), params=params_yaml(cases[i][1], cases[i][2]) + "follow: true\n", lookup=True) for i in fsel], prepare=prep)
+    for i, fo in zip(fsel, fouts):
+        a = sorted(os.path.normpath(x) for x in iouts[i]["module"]["ok"])
+        b = fo.get("module", {}).get("ok")
+        lb = fo.get("lookup", {}).get("ok")
+        if b is None or sorted(os.path.normpath(x) for x in b) != a or lb is None or sorted(os.path.normpath(x) for x in lb) != a:
+            run.violation("follow: true changes the result on a tree without symbolic links: %r instead of %r (lookup %r)" % (b, a, lb),
+                          dict(tree=cases[i][0], params=params_yaml(cases[i][1], cases[i][2]) + "follow: true\n", observed=fo))
     # lists of regular expressions, including ones the model does not cover (inline flags, comments, anchors, classes):
     # `patterns: [p, q]` must return what [p] returns plus what [q] returns, `excludes: [p, q]` what both [p] and [q] leave
     EXTRA = ["(?i)^READ", "(?i)log$", "(?x) ^c # comment", "[.]txt$", "^[ab]", "(?i:SUB)", "a|b", "^$", "x\\.log", "(?s).", "\\bdeep\\b"]
